@@ -584,8 +584,10 @@ func genSeqOps(r *lib.Rng, pool []poolEntry, kick bool, n int, allowFail bool) [
 		case k < 14:
 			ops = append(ops, op{K: oCan, H: h})
 		case k < 40:
-			if kick && closedMaybe[h] {
-				continue // a closed player registered in kick mode makes the next kicker spin for ever
+			if kick && (closedMaybe[h] || regMaybe[h]) {
+				// a closed player registered in kick mode makes the next kicker spin for ever; registering
+				// a registered player again kicks (closes) itself first and ends in the same state
+				continue
 			}
 			if !kick && !allowFail && conflict(h) {
 				continue
@@ -961,6 +963,7 @@ func main() {
 	f := lib.ParseFlags()
 	rng := lib.NewRng(f.Seed)
 	out := lib.NewOut("C11", f)
+	out.Imports = "From Verif Require Import Base.Lin Model.PlayerRegistry.\n"
 	out.Rule = "sequential histories: 24-40 calls (canRegister/register/unregister/Disconnect/login via authSessionHandler.Activated/lookups) over a pool of 3-7 player objects sharing 1-3 base names in random case spellings and 1-3 UUIDs, offline and online, kick-existing on and off, a full lookup snapshot after every mutating call; concurrent histories: 16 goroutines x 3-6 barrier rounds of atomic registry calls, linearization searched in Go and validated in Coq; races: 2 logins (same name/UUID or not) started at once through Activated, optionally against a pre-registered player, outcome must be produced by some schedule of the model's login threads. distinct = distinct Coq term; non-trivial = a call was rejected, a player was replaced/kicked, a DisconnectEvent fired, or calls overlapped on the same name or UUID"
 
 	var jobs []job
